@@ -46,7 +46,8 @@ ASSUMPTIONS = ['writes by child processes are invisible to the audit hook; the '
 
 PRIOR = ['content', 'size', 'delete', 'stray', 'retype', 'm-digest', 'm-drop', 'm-ghost',
          'm-compatible-dup', 'm-conflict', 'm-chain', 'm-dup-ignore', 'unreg-valid',
-         'unreg-invalid', 'm-entry-for-dir', 'm-manifest-as-data-only']
+         'unreg-invalid', 'm-entry-for-dir', 'm-manifest-as-data-only',
+         'm-dist-same-name', 'm-dist-same-name']
 OPS = ['verify-dir', 'verify-path', 'find-path', 'find-dist', 'update-dir', 'update-dir',
        'update-path', 'save', 'save']
 N = {'quick': 1500, 'thorough': 50000}
@@ -421,7 +422,18 @@ def gen_history(rng, root):
         elif k == 'save':
             op['force'] = rng.random() < 0.2
         ops.append(op)
-    if rng.random() < 0.3:
+    same = [r['path'] for r in case['mutations'] if r.get('class') == 'm-dist-same-name']
+    if same and rng.random() < 0.8:
+        # make sure the file that shares its name with a DIST entry is dealt with
+        f = same[0]
+        if rng.random() < 0.5 and os.path.isfile(os.path.join(root, f)):
+            os.unlink(os.path.join(root, f))
+            case['ops'].append({'op': 'unlink', 'p': f})
+            ops.append({'op': 'update-dir', 'path': ''})
+        else:
+            ops.append({'op': 'update-path', 'path': f})
+        ops.append({'op': 'save', 'force': False})
+    elif rng.random() < 0.3:
         ops.append({'op': 'discard'})
     else:
         ops.append({'op': 'save', 'force': False})
